@@ -192,6 +192,9 @@ pub fn c05(rep: &mut Report, tier: &str, seed: u64, prop: &'static str) {
         run_cmd4(rep, cfg, &caps, seed);
         rep.required.push((name, "editor_insert_inside".into()));
     }
+    if prop == "C05" {
+        crate::checks_scale::c05_scale(rep, tier, seed);
+    }
 }
 
 // ------------------------------------------------------------------ C10
@@ -243,6 +246,7 @@ pub fn c10(rep: &mut Report, tier: &str, seed: u64) {
             run_raw(rep, cfg, &caps, seed);
         }
     }
+    crate::checks_scale::c10_scale(rep, tier, seed);
 }
 
 // ------------------------------------------------------------------ C01
@@ -298,6 +302,9 @@ pub fn c01(rep: &mut Report, tier: &str, seed: u64, prop: &'static str) {
         let name = cfg.label.clone();
         run_cmd4(rep, cfg, &caps, seed);
         rep.required.push((name, "dispatch_with_command".into()));
+    }
+    if prop == "C01" {
+        crate::checks_scale::c01_scale(rep, tier, seed);
     }
 }
 
@@ -405,6 +412,9 @@ pub fn c06(rep: &mut Report, tier: &str, seed: u64, prop: &'static str) {
     let (cb, hb) = if tier == "quick" { (2, 3) } else { (3, 4) };
     let cfg = base_cfg(prop, format!("screen byte-granular cb={} hb={} raw", cb, hb), cb, hb, alphabet, mon.clone());
     run_raw(rep, cfg, &caps, seed);
+    if prop == "C06" || prop == "C15" {
+        crate::checks_scale::c06_scale(rep, tier, seed, prop);
+    }
 }
 
 // ------------------------------------------------------------------ C03
@@ -678,6 +688,7 @@ pub fn c13(rep: &mut Report, tier: &str, seed: u64) {
         run_raw(rep, cfg, &caps, seed);
         rep.required.push((name, "framing_write".into()));
     }
+    crate::checks_scale::c06_scale(rep, tier, seed, "C13");
 }
 
 // ------------------------------------------------------------------ C14
